@@ -390,12 +390,14 @@ def gen_host(ctx, n):
 
 
 def check_host(ctx, cases):
-    go = core.go_lines("host", [f"(host (main {G.hexs(src)}) (call {G.hexs('f')} {host_val(v)}))" for v, T, src in cases], timeout=900)
+    # both host entries: SpawnSync (`call`) and SpawnAsync + Wait + HandleTermination (`acall`) validate and convert alike
+    kinds = ["acall" if i % 2 else "call" for i in range(len(cases))]
+    go = core.go_lines("host", [f"(host (main {G.hexs(src)}) ({k} {G.hexs('f')} {host_val(v)}))" for k, (v, T, src) in zip(kinds, cases)], timeout=900)
     lean = core.lean_lines([f"vcast false {G.sx_val(v)} {G.sx_ty(T)}" for v, T, _ in cases])
     stats = {"admitted": 0, "refused": 0}
     for i, (v, T, src) in enumerate(cases):
         g, m = go[i], lean[i]
-        rep = {"kind": "host", "source": src, "arg": host_val(v)}
+        rep = {"kind": "host", "source": src, "arg": host_val(v), "entry": kinds[i]}
         parts = g.split(" | ")
         if g.startswith(("CRASH", "HANG")) or len(parts) < 2:
             if not parts[0].startswith("A=ACCEPT") and not g.startswith(("CRASH", "HANG")):
@@ -557,7 +559,7 @@ def replay(ctx, rep):
             print("VIOLATION property=C12 replay=(replayed)")
         return 1 if bad else 0
     elif rep.get("kind") == "host":
-        g = core.go_lines("host", [f"(host (main {G.hexs(rep['source'])}) (call {G.hexs('f')} {rep['arg']}))"])[0]
+        g = core.go_lines("host", [f"(host (main {G.hexs(rep['source'])}) ({rep.get('entry', 'call')} {G.hexs('f')} {rep['arg']}))"])[0]
         print(rep["source"])
         print("arg:", rep["arg"])
         print(g[:600])
